@@ -36,7 +36,8 @@ type Renderer struct {
 	allocOrd map[*ssa.Alloc]int
 	// subst renders parameters as the caller's argument terms (context-
 	// sensitive rendering used by the interprocedural walkers).
-	subst map[*ssa.Parameter]string
+	subst    map[*ssa.Parameter]string
+	loopSyms map[*ssa.Phi]string
 }
 
 func NewRenderer(w *World, fn *ssa.Function) *Renderer {
@@ -536,6 +537,10 @@ func (r *Renderer) render1(v ssa.Value, depth int) string {
 		if x.Comment == "rangeindex" {
 			return r.loopVar(x)
 		}
+		// a loop-carried phi (one that depends on itself) is a symbol
+		if sym, ok := r.loopPhiSym(x); ok {
+			return sym
+		}
 		set := map[string]bool{}
 		for _, e := range x.Edges {
 			set[r.render(e, depth+1)] = true
@@ -585,6 +590,108 @@ func (r *Renderer) render1(v ssa.Value, depth int) string {
 		return "select"
 	}
 	return fmt.Sprintf("?%T", v)
+}
+
+// loopPhiSym names loop-carried phis $L0, $L1, … in order of appearance.
+func (r *Renderer) loopPhiSym(phi *ssa.Phi) (string, bool) {
+	if r.loopSyms == nil {
+		r.loopSyms = map[*ssa.Phi]string{}
+		n := 0
+		fn := phi.Parent()
+		for _, b := range fn.Blocks {
+			for _, in := range b.Instrs {
+				p, ok := in.(*ssa.Phi)
+				if !ok {
+					break
+				}
+				if p.Comment == "rangeindex" {
+					continue
+				}
+				if phiDependsOnSelf(p) {
+					r.loopSyms[p] = fmt.Sprintf("$L%d", n)
+					n++
+				}
+			}
+		}
+	}
+	s, ok := r.loopSyms[phi]
+	return s, ok
+}
+
+// phiDependsOnSelf: following operands (through any value) leads back to the phi.
+func phiDependsOnSelf(phi *ssa.Phi) bool {
+	seen := map[ssa.Value]bool{}
+	var rec func(v ssa.Value, depth int) bool
+	rec = func(v ssa.Value, depth int) bool {
+		if v == nil || depth > 40 {
+			return false
+		}
+		if v == ssa.Value(phi) && depth > 0 {
+			return true
+		}
+		if seen[v] {
+			return false
+		}
+		seen[v] = true
+		in, ok := v.(ssa.Instruction)
+		if !ok {
+			return false
+		}
+		for _, op := range in.Operands(nil) {
+			if op != nil && *op != nil && rec(*op, depth+1) {
+				return true
+			}
+		}
+		return false
+	}
+	return rec(phi, 0)
+}
+
+// ExpandLoopSyms replaces each $Lk in s by φ⟲(operands…) of the loop-carried
+// phi it names (one level; nested self references stay symbolic).
+func (r *Renderer) ExpandLoopSyms(s string) string {
+	if !strings.Contains(s, "$L") {
+		return s
+	}
+	defs := map[string]string{}
+	for phi, sym := range r.loopSyms {
+		set := map[string]bool{}
+		for _, d := range r.PhiDef(phi) {
+			set[d] = true
+		}
+		keys := make([]string, 0, len(set))
+		for k := range set {
+			keys = append(keys, k)
+		}
+		sort.Strings(keys)
+		defs[sym] = "φ⟲(" + strings.Join(keys, "|") + ")"
+	}
+	var sb strings.Builder
+	for i := 0; i < len(s); {
+		if strings.HasPrefix(s[i:], "$L") {
+			j := i + 2
+			for j < len(s) && s[j] >= '0' && s[j] <= '9' {
+				j++
+			}
+			if def, ok := defs[s[i:j]]; ok && j > i+2 {
+				sb.WriteString(def)
+				i = j
+				continue
+			}
+		}
+		sb.WriteByte(s[i])
+		i++
+	}
+	return sb.String()
+}
+
+// PhiDef renders the definition of a loop-carried phi: its operands.
+func (r *Renderer) PhiDef(phi *ssa.Phi) []string {
+	var out []string
+	for _, e := range phi.Edges {
+		out = append(out, r.R(e))
+	}
+	return out
 }
 
 // loopVar names the index of a lowered range loop: $i0, $i1, ... by order of
